@@ -18,7 +18,7 @@ Pipeline (model-based; the TLA+ specification decides):
      contract `dist <= bound` on every record and prints VIOL lines -> VIOLATION property=C02.
      Landing-step probes: two steps (first_step = max_step = 1, span 1.3) so that the second step is shortened by the landing logic; c_i
      relative to the ACTUAL step, a_ij, b_j of that step, and the call that provides its k1 = f(x_1, y_1), with the low-level builders'
-     dense_output(true) and dense_output(false) (identical stage arguments required).  RADAU also has the flag but is implicit: not probed.
+     dense_output(true) and dense_output(false) (identical stage arguments required).  DOP853's dense-only stages 14-16 are left to C07.  RADAU also has the flag but is implicit: not probed.
   thorough adds: every canary, every negative fact once more as an invariant of its own, estimator sums over all stage pairs.
 """
 import concurrent.futures
@@ -280,8 +280,14 @@ class Facts:
                 f.write(json.dumps(r) + "\n")
 
 
-def facts_from_unit_run(facts, job, rec):
-    """c_i, a_ij, b_j of one impulse-probe run."""
+def main_stages(m):
+    """number of evaluations that determine the step itself (incl. f(x_new, y_new)); DOP853's stages 14-16 serve only the dense
+    output and are attributed to C07."""
+    return STRUCT[m][1] + 1
+
+
+def facts_from_unit_run(facts, job, rec, max_stage=None):
+    """c_i, a_ij, b_j of one impulse-probe run (stages above max_stage are left to the other check)."""
     m, dn, d, via = job["method"], job["dirname"], job["dir"], job["api"]
     t = tg.tab(m)
     if rec.get("panic") or rec.get("error"):
@@ -289,7 +295,7 @@ def facts_from_unit_run(facts, job, rec):
         return
     calls = rec["calls"]
     facts.add(m, "ncalls", dn, via, abs(len(calls) - t.ncalls), 0, got=len(calls), want=t.ncalls)
-    for i in range(1, t.ncalls + 1):
+    for i in range(1, (max_stage or t.ncalls) + 1):
         if i > len(calls):
             facts.add(m, "c_%d" % i, dn, via, CAP, 1, got="missing ode call", want=str(t.c[i]))
             continue
@@ -491,10 +497,11 @@ def _rel_dist(got, want):
     return min(CAP, math.ceil(abs(got - want) / ulp_of(abs(want))))
 
 
-def facts_from_landing_run(facts, job, rec):
-    """c_i, a_ij, b_j of the SECOND (shortened) step, relative to its actual start and length; which call provides its k1."""
+def facts_from_landing_run(facts, job, rec, max_stage=None):
+    """c_i, a_ij, b_j of the SECOND (shortened) step, relative to its actual start and length; which call provides its k1;
+    for the dense-only stages also the abscissae of the FIRST step."""
     m, dn, d, dense = job["method"], job["dirname"], job["dir"], job["dense"]
-    via = "land" if dense else "land/nodense"
+    via = "land/solve_ivp" if job["api"] == "solve_ivp" else ("land" if dense else "land/nodense")
     t = tg.tab(m)
     g = landing_geometry(job, rec)
     if isinstance(g, str):
@@ -514,7 +521,14 @@ def facts_from_landing_run(facts, job, rec):
     facts.add(m, "land_k1src", dn, via, 0 if ok else CAP, 0,
               got=("ode call %d at t=%r" % (kc, untok(calls[kc - 1]["t"]))) if len(calls) >= kc else "no such call",
               want="ode call %d evaluated exactly at (x_1, y_1) = (%r, state after step 1): the first-stage derivative of step 2" % (kc, x1))
-    for i in range(2, last_stage(m, dense) + 1):
+    top = min(last_stage(m, dense), max_stage or 10 ** 6)
+    for i in range(main_stages(m) + 1, top + 1):
+        # dense-only stages of the FIRST step (the main stages of a first step are covered by the single-step probes)
+        if i <= len(calls):
+            tt = untok(calls[i - 1]["t"])
+            facts.add(m, "land1_c_%d" % i, dn, via, abs_dist(tt, t.c[i] * F(x1), abs(F(x1))) if _finite([tt]) else CAP, 2,
+                      got="t=%r in the step [0, %r]" % (tt, x1), want="c_%d = %s" % (i, t.c[i]))
+    for i in range(2, top + 1):
         ci = comp(m, dense, i)
         if ci > len(calls):
             facts.add(m, "land_c_%d" % i, dn, via, CAP, 2, got="missing ode call %d" % ci, want=str(t.c[i]))
@@ -536,7 +550,7 @@ def facts_from_landing_run(facts, job, rec):
         facts.add(m, "land_other_%d" % i, dn, via, CAP if stale else 0, 0,
                   got="stage %d of step 2 moved components %s (derivatives of other ode calls)" % (i, stale[:6]), want="only k_1..k_%d of step 2 enter" % (i - 1))
     used = set()
-    for j in range(1, last_stage(m, dense) + 1):
+    for j in range(1, top + 1):
         q = comp(m, dense, j)
         used.add(q)
         got = (F(y2[q - 1]) - F(y1[q - 1])) / h2
@@ -663,14 +677,14 @@ def run(tier, seed, replay=None, keep=False):
         est_skipped = 0
         for j in jobs:
             if j["kind"] == "unit":
-                facts_from_unit_run(facts, j, recs[j["id"]])
+                facts_from_unit_run(facts, j, recs[j["id"]], max_stage=main_stages(j["method"]))
             elif j["kind"] == "est":
                 if cal.get((j["method"], j["dirname"])) is None:
                     facts_from_est_run(facts, j, recs[j["id"]])
                 else:
                     est_skipped += 1
             elif j["kind"] == "land":
-                facts_from_landing_run(facts, j, recs[j["id"]])
+                facts_from_landing_run(facts, j, recs[j["id"]], max_stage=main_stages(j["method"]))
         for m in methods:
             for dn, _d in DIRS:
                 facts_dense_invariance(facts, m, dn, recs[f"land/{m}/lowlevel/{dn}"], recs[f"land/{m}/nodense/{dn}"])
